@@ -152,13 +152,13 @@ func (r *caseRun) dumpLines(d nject.VerifDump) {
 		if len(flags) > 0 {
 			fl = strings.Join(flags, ",")
 		}
-		r.logf("f %d id=%d class=%s group=%s inc=%d ret=%s out=%s in=%s recv=%s byp=%s drm=%s urm=%s brm=%s zs=%s zi=%s ei=%d flags=%s origin=%s why=%s",
+		r.logf("f %d id=%d class=%s group=%s inc=%d ret=%s out=%s in=%s recv=%s byp=%s drm=%s urm=%s brm=%s zs=%s zi=%s ei=%d flags=%s origin=%s index=%d why=%s",
 			pos, idx, f.Class, f.Group, b2i(f.Include),
 			fmtCodes(codesOf(f.Flows[0])), fmtCodes(codesOf(f.Flows[1])), fmtCodes(codesOf(f.Flows[2])),
 			fmtCodes(codesOf(f.Flows[3])), fmtCodes(codesOf(f.Flows[4])),
 			fmtRmap(r, f.DownRmap), fmtRmap(r, f.UpRmap), fmtRmap(r, f.BypassRmap),
 			fmtCodes(sortedCodes(f.MustZeroSkipped)), fmtCodes(sortedCodes(f.MustZeroInner)), ei, fl,
-			strings.ReplaceAll(orDash(f.Origin), " ", "_"), strings.ReplaceAll(orDash(oneLine(f.WhyIncluded+"|"+f.CannotInclude)), " ", "_"))
+			strings.ReplaceAll(orDash(f.Origin), " ", "_"), f.Index, strings.ReplaceAll(orDash(oneLine(f.WhyIncluded+"|"+f.CannotInclude)), " ", "_"))
 	}
 	if d.Stage == "S7" {
 		r.logf("dv %s", fmtVmap(d.DownVmap))
